@@ -308,6 +308,65 @@ def move_responses(mid: int, h: int, n: int, o0: int, o1: int, o2: int) -> bool:
     return ok
 
 
+class RealSubAssoc(RecAssoc):
+    """sub-association to the move destination on which the REAL storage_scu runs: the C-STORE-RQ is really built, its
+    length set and encoded (a Message ID outside 0..65535 cannot be), the destination answers with the scripted status"""
+
+    def __init__(self, ae, outcomes):
+        RecAssoc.__init__(self, ae)
+        self.outcomes = list(outcomes)
+
+    def get_scu(self, sop_class):
+        def service(ds, msg_id):
+            rsp = dm.CStoreRSPMessage()
+            rsp.status = self.outcomes[len(self.dul.pdus) + len(self.dul.queued)]
+            self.script.append((rsp, 1))
+            return sopclass.storage_scu(self, ctx_of(1, str(sop_class)), ds, msg_id)
+        return service
+
+
+@cond(bounds='C-MOVE provider with the REAL storage user on the sub-association: the C-MOVE-RQ\'s message id symbolic over '
+             'the whole 16-bit range (incl. 65535), n = 1..3 sub-operations (symbolic choice) with outcome success / '
+             'warning / failure each: every request is answered (n pending responses + one final, all correlated), every '
+             'C-STORE-RQ that reached the destination carries a Message ID that fits its element and the instance',
+      family={'n': [1, 2, 3]}, timeout=300)
+def move_real_suboperations(mid: int, o0: int, o1: int, o2: int) -> bool:
+    """
+    pre: 0 <= mid <= 65535 and 0 <= o0 <= 2 and 0 <= o1 <= 2 and 0 <= o2 <= 2
+    pre: tier() == 'thorough' or (o1 == o0 and o2 == o0)
+    post: _
+    """
+    n = fam('n')
+    codes = [(0x0000, 0xB000, 0xA700)[pick(o, 0, 2)] for o in (o0, o1, o2)][:n]
+    sop = str(sopclass.PATIENT_ROOT_MOVE_SOP_CLASS)
+    ae = AE(0, False)
+    ae.sub = RealSubAssoc(ae, codes)
+    ae.move = ({'aet': 'DEST', 'address': 'd', 'port': 1}, n, iter([_inst(i) for i in range(n)]))
+    asce = RecAssoc(ae)
+    rq = dm.CMoveRQMessage()
+    rq.message_id = mid
+    rq.sop_class_uid = sop
+    rq.priority = 0
+    rq.move_destination = 'DEST'
+    rq.data_set = QUERY
+    try:
+        sopclass.qr_move_scp(asce, ctx_of(3, sop), rq)
+    except Exception:                      # noqa: the request was not answered to the end
+        return False
+    sent = asce.sent()
+    ok = len(sent) == n + 1
+    for s_ in sent:
+        ok = ok and correlated(s_, 3, 0x8021, mid, sop)
+    ok = ok and sent[-1].status != 0xFF00
+    stores = ae.sub.sent()
+    ok = ok and len(stores) == n
+    for i, st in enumerate(stores):
+        ok = ok and st.command_field == 0x0001 and st.message_id is not None and 0 <= st.message_id <= 65535 \
+            and st.sop_instance == '1.2.3.%d' % i
+    deep(ok and mid == 65535)
+    return ok
+
+
 def _commit_request(n):
     ds = pydicom.Dataset()
     ds.TransactionUID = '1.2.3.99'
